@@ -2345,8 +2345,8 @@ func c13VariantList() []c13Variant {
 	user := []fs{
 		{"none", "control@transfer"},
 		{"ChangesHash", "random@transfer"}, {"ChangesHash", "zero@transfer"}, {"ChangesHash", "random@call"},
-		{"BasePlasma", "plus1@transfer"}, {"BasePlasma", "max@transfer"},
-		{"TotalPlasma", "zero@transfer"}, {"TotalPlasma", "max@transfer"},
+		{"BasePlasma", "plus1@transfer"}, {"BasePlasma", "max@transfer"}, {"BasePlasma", "minus1@transfer"}, {"BasePlasma", "one@transfer"}, {"BasePlasma", "half@transfer"}, {"BasePlasma", "minus1@call"},
+		{"TotalPlasma", "zero@transfer"}, {"TotalPlasma", "max@transfer"}, {"TotalPlasma", "plus1@transfer"}, {"TotalPlasma", "half@transfer"},
 		{"PublicKey", "otherkey@transfer"}, {"PublicKey", "garbage@transfer"}, {"PublicKey", "trailing@transfer"}, {"PublicKey", "empty@transfer"},
 		{"Signature", "noncanonicalS@transfer"}, {"Signature", "trailing@transfer"}, {"Signature", "bitflip@transfer"}, {"Signature", "empty@transfer"},
 		{"Data", "abi-dirty@call"}, {"Data", "abi-offset@call"}, {"Data", "abi-trailing@call"},
@@ -2354,7 +2354,7 @@ func c13VariantList() []c13Variant {
 	recv := []fs{
 		{"none", "control@receive"},
 		{"ChangesHash", "random@receive"}, {"ChangesHash", "zero@receive"},
-		{"BasePlasma", "max@receive"}, {"TotalPlasma", "max@receive"},
+		{"BasePlasma", "max@receive"}, {"TotalPlasma", "max@receive"}, {"BasePlasma", "minus1@receive"}, {"BasePlasma", "one@receive"}, {"TotalPlasma", "plus1@receive"},
 		{"PublicKey", "garbage@receive"}, {"Signature", "noncanonicalS@receive"}, {"Signature", "trailing@receive"},
 	}
 	var contract []fs
@@ -2511,7 +2511,20 @@ func c13Mutate(r *rand.Rand, v *nom.AccountBlock, field, mutation string) bool {
 			v.BasePlasma++
 		case "max":
 			v.BasePlasma = ^uint64(0)
+		case "minus1":
+			if v.BasePlasma < 2 {
+				return false
+			}
+			v.BasePlasma--
+		case "half":
+			if v.BasePlasma < 2 {
+				return false
+			}
+			v.BasePlasma /= 2
 		default:
+			if v.BasePlasma == 1 {
+				return false
+			}
 			v.BasePlasma = 1
 		}
 	case "TotalPlasma":
@@ -2523,6 +2536,13 @@ func c13Mutate(r *rand.Rand, v *nom.AccountBlock, field, mutation string) bool {
 			v.TotalPlasma = 0
 		case "max":
 			v.TotalPlasma = ^uint64(0)
+		case "plus1":
+			v.TotalPlasma++
+		case "half":
+			if v.TotalPlasma < 2 {
+				return false
+			}
+			v.TotalPlasma /= 2
 		default:
 			v.TotalPlasma = 1
 		}
